@@ -35,3 +35,15 @@ Lemma gen_wiring_Strand__measures :
   wsrc_Strand__measures = Some (WCall (WGlobal "StripeMeasures") [WSelf "_cube"; WSelf
       "_rows_dimension"; WSelf "_ca_as_0th"; WSelf "_slice_idx"] []).
 Proof. reflexivity. Qed.
+
+(* SecondOrderMeasures._cube_measures *)
+Lemma gen_wiring_SecondOrderMeasures__cube_measures :
+  wsrc_SecondOrderMeasures__cube_measures = Some (WCall (WGlobal "CubeMeasures") [WSelf "_cube"; WSelf
+      "_dimensions"; WSelf "_slice_idx"] []).
+Proof. reflexivity. Qed.
+
+(* StripeMeasures._cube_measures *)
+Lemma gen_wiring_StripeMeasures__cube_measures :
+  wsrc_StripeMeasures__cube_measures = Some (WCall (WGlobal "CubeMeasures") [WSelf "_cube"; WSelf
+      "_rows_dimension"; WSelf "_ca_as_0th"; WSelf "_slice_idx"] []).
+Proof. reflexivity. Qed.
